@@ -25,7 +25,7 @@ DRIVER3 = dict(nd=3, groups=[{'v_parallel_2d': [0, 2, 1], 'mode_solve': [1, 2, 0
                procs=lambda p0, p1: [[p0, p1], p0, p1], start='mode_solve')
 DRIVER4 = dict(nd=4, groups=[{'v_parallel_2d': [0, 2, 1, 3], 'mode_solve': [1, 2, 0, 3]}, {'v_parallel_1d': [0, 2, 1, 3]}, {'poloidal': [2, 1, 0, 3]}],
                procs=lambda p0, p1: [[p0, p1], p0, p1], start='mode_solve')
-TWO_GROUPS = dict(nd=3, groups=[{'A': [0, 1, 2], 'B': [1, 0, 2]}, {'C': [0, 2, 1]}],
+TWO_GROUPS = dict(nd=3, groups=[{'A': [0, 1, 2], 'B': [0, 2, 1]}, {'C': [0, 2, 1]}],
                   procs=lambda p0, p1: [[p0, p1], p0], start='A')
 
 
@@ -125,6 +125,11 @@ def run_config(cfg, mode='all', decisions=None):
             res['obligations'] += 1
             if isinstance(val, NotImplementedError):
                 res['inconclusive'].append('model limitation %r in %s' % (val, tag(cfg)))
+                continue
+            if isinstance(val, RuntimeError) and 'could not be connected' in str(val):
+                # the constructor does not accept this grouping: outside the property ("groupings the constructor accepts")
+                res['obligations'] -= 1
+                res.setdefault('rejected', []).append(tag(cfg))
                 continue
             r = ctx.check()
             if r == 'sat':
